@@ -108,8 +108,107 @@ def case(draw, tier):
             "key_script": key_script, "x_script": x_script, "flags": {str(k): v for k, v in flags.items()}}
 
 
+@st.composite
+def reduce_case(draw, tier):
+    """branches that END in a reduce over the held dictionary: the branch terminal is a forwarding output that re-points
+    whenever the reduction tree re-roots (2 -> 3 keys, shrink), and the switch output forwards to it"""
+    big = tier == "thorough"
+    start = draw(st.sampled_from([0, 0, 2]))
+    horizon = draw(st.integers(5, 30 if big else 16))
+    end = start + horizon
+    from hgv import tsmodel as tm
+    opts = {"cancel": True, "multi": True, "no_rewrite": True, "grow": draw(st.booleans()), "keys": draw(st.sampled_from([3, 5, 9]))}
+    d_script = draw(tm.history(("TSD", "int", ("TS", "int")), start, horizon, opts, max_cycles=12 if big else 8))
+    times = draw(gen.time_set(start, end - 1, 1, 6))
+    key_script = [[t, [{"k": "set", "v": draw(st.integers(0, 1))}]] for t in times]
+    combs = [draw(st.sampled_from(["sum", "max"])), draw(st.sampled_from(["sum", "max", "xor"]))]
+    zeros = [draw(st.sampled_from([None, 0, 7])), draw(st.sampled_from([None, 0]))]
+    return {"kind": "reduce_terminal", "start": start, "end": end, "d_script": d_script, "key_script": key_script, "combs": combs, "zeros": zeros,
+            "reload": draw(st.integers(0, 4)) == 0}
+
+
 def strategy(tier):
-    return case(tier)
+    return st.one_of(case(tier), case(tier), case(tier), case(tier), reduce_case(tier))
+
+
+def check_reduce(case, ctx) -> Result:
+    from hgv import tsmodel as tm
+    res = Result()
+    start, end = case["start"], case["end"]
+    subs = {}
+    for i in (0, 1):
+        subs[f"C{i}"] = {"params": ["TS[int]", "TS[int]"], "names": ["lhs", "rhs"], "out": "TS[int]", "ret": "c",
+                         "stmts": [{"id": "c", "op": "node", "ins": [{"arg": 0}, {"arg": 1}], "out": "TS[int]", "fn": case["combs"][i], "log_inputs": False}]}
+        z = case["zeros"][i]
+        subs[f"B{i}"] = {"params": ["TSD[int,TS[int]]"], "names": ["d"], "out": "TS[int]", "ret": "red", "stmts": [
+            {"id": "red", "op": "op", "name": "reduce", "has_out": True, "args": [{"fn": f"C{i}"}, {"ts": {"arg": 0}}] + ([{"sc": z, "t": "int"}] if z is not None else [])}]}
+    prog = {"start": start, "end": end, "subs": subs, "stmts": [
+        {"id": "key", "op": "src", "schema": "TS[int]", "script": case["key_script"]},
+        {"id": "d", "op": "src", "schema": "TSD[int,TS[int]]", "script": case["d_script"]},
+        {"id": "sw", "op": "op", "name": "switch_", "has_out": True, "args": [{"ts": "key"}, {"cases": [[0, "B0"], [1, "B1"]], "key_t": "int", "reload": case["reload"]}, {"ts": "d"}]},
+        {"id": "rec", "op": "node", "ins": ["sw"], "valid": []}]}
+    resp = ctx.run(prog)
+    if resp.get("crash"):
+        res.violations.append(Viol("engine_crash", f"worker died {resp.get('signal')} {resp.get('stderr', '')[-500:]}"))
+        return res
+    if not resp.get("built"):
+        raise Rejected(f"C12 generator produced a reduce-terminal program the tree rejects: {resp.get('error')}")
+    feats = {"reload": case["reload"], "reduce_terminal": True}
+    if resp.get("error"):
+        res.violations.append(Viol("run_failed", f"run threw: {resp['error']}", feats))
+        return res
+    ivs = intervals(case)
+    # the dictionary as each new instance finds it: its state at the end of the switch cycle, then the script's later cycles
+    m = tm.M(("TSD", "int", ("TS", "int")))
+    state_at, maxlive = {}, 0
+    ds = {t: ops for t, ops in case["d_script"]}
+    for t in range(start, end):
+        if t in ds:
+            m.begin_cycle()
+            for op in ds[t]:
+                m.apply(op, t)
+        state_at[t] = {k: c.value for k, c in m.value.items() if c.valid}
+        maxlive = max(maxlive, len(state_at[t]))
+    # the selected branch ALONE: one engine run per interval that starts at the switch time, fed the dictionary as the new
+    # instance finds it (its state at the end of the switch cycle - also when that is empty - then the script's later cycles)
+    exp = {}
+    written = {}
+    w = False
+    for t in range(start, end):
+        w = w or t in ds
+        written[t] = w
+    for i, (k, ts, te) in enumerate(ivs):
+        first = [{"k": "D", "ops": [["set", kk, vv] for kk, vv in sorted(state_at[ts].items())]}] if state_at[ts] else ([{"k": "D", "ops": [["clear"]]}] if written[ts] else None)
+        sc = ([[ts, first]] if first else []) + [[t, ops] for t, ops in case["d_script"] if ts < t < te]
+        solo = [{"id": "d0", "op": "src", "schema": "TSD[int,TS[int]]", "script": sc},
+                {"id": "f0", "op": "inline", "sub": f"B{k}", "ins": ["d0"]},
+                {"id": "r0", "op": "node", "ins": ["f0"], "valid": []}]
+        sresp = ctx.run({"start": ts, "end": te, "stmts": solo, "subs": subs})
+        if sresp.get("crash") or not sresp.get("built") or sresp.get("error"):
+            raise HarnessError(f"C12 reduce-terminal solo program failed: {sresp.get('error') or sresp.get('signal')}")
+        exp[i] = [(t, v) for (t, v, _) in Trace(sresp["trace"]).stream("r0") if ts <= t < te]
+    got = [(t, v) for (t, v, _) in Trace(resp["trace"]).stream("rec", 0, "r")]
+    # state comparison at every tick of either run: the switch output must hold what the selected reduce alone holds
+    for i, (k, ts, te) in enumerate(ivs):
+        g_iv = [(t, v) for (t, v) in got if ts <= t < te]
+        for t in sorted({t for t, _ in g_iv} | {t for t, _ in exp[i]}):
+            g = [v for (tt, v) in g_iv if tt <= t]
+            e = [v for (tt, v) in exp[i] if tt <= t]
+            gv, ev = (g[-1] if g else None), (e[-1] if e else None)
+            if gv != ev:
+                res.violations.append(Viol("switch_stream_differs", f"t={t} (branch of key {k} selected at {ts}, {len(state_at[t])} live keys): the switch output holds {gv}, that branch's reduce alone holds {ev}; switch ticks {g_iv[:10]}, alone {exp[i][:10]}",
+                                           dict(feats, at_switch_cycle=t == ts)))
+                break
+        if res.violations:
+            break
+    res.nontrivial = len(ivs) >= 2 and maxlive >= 3
+    res.labels.append("reduce_terminal")
+    if maxlive >= 3:
+        res.labels.append("reduce_terminal_three_plus_keys")
+    if len(ivs) >= 3:
+        res.labels.append("three_plus_switches")
+    res.summary = {"intervals": ivs[:8], "stream": got[:12]}
+    return res
 
 
 def intervals(case):
@@ -129,6 +228,8 @@ def intervals(case):
 
 
 def check(case, ctx) -> Result:
+    if case.get("kind") == "reduce_terminal":
+        return check_reduce(case, ctx)
     res = Result()
     start, end = case["start"], case["end"]
     cases = [[i, f"B{i}"] for i in range(case["nb"])]
